@@ -343,7 +343,13 @@ func (in *Interp) query(asserts []*Term, vars []*Term) (Result, Model) {
 		script := Script(asserts, vars, 0)
 		t1 := time.Now()
 		var who string
-		r, m, who = RunPortfolio(script, vars, in.ex.Timeout, true, in.ex.TmpDir)
+		// last resort: every back end in parallel with a generous budget (only reached when the session solvers gave up,
+		// e.g. on a loaded machine; a longer wait here is better than an inconclusive run)
+		pto := 4 * in.ex.Timeout
+		if pto < 90*time.Second {
+			pto = 90 * time.Second
+		}
+		r, m, who = RunPortfolio(script, vars, pto, true, in.ex.TmpDir)
 		if who != "" {
 			in.qs.ByBackend[who] += time.Since(t1)
 		} else {
